@@ -9,8 +9,12 @@ DC = 'Teakra::DataChannel'
 IMPL = 'Teakra::Apbp::Impl'
 
 
+_INERT = set()
+
+
 def _writes(f):
-    return {(p[1], render(n.get('rhs') if n.get('k') == 'assign' else None, f, param_names=True)) for p, n, how in direct_writes(f['body'])}
+    return {(p[1], render(n.get('rhs') if n.get('k') == 'assign' else None, f, param_names=True)) for p, n, how in direct_writes(f['body'])
+            if p[1] not in _INERT}
 
 
 def h1_channel(ctx, CG):
@@ -23,8 +27,14 @@ def h1_channel(ctx, CG):
     ctx.inst(R)
     FM = boolform.Former(f)
     DIS, HND = boolform.A('f:%s::disable_interrupt' % DC), boolform.A('f:%s::handler' % DC)
+    from ..cases import observation_only_fields
+    INERT = observation_only_fields(ctx.F, DC) - {'ready', 'data', 'disable_interrupt'}
+    _INERT.clear()
+    _INERT.update(INERT)
     ws = {}
     for p, n, how in direct_writes(f['body']):
+        if p[1] in INERT:
+            continue
         ws[p[1]] = (render(n.get('rhs'), f), CG.locks_held_at(f, n))
     if set(ws) != {'ready', 'data'} or ws.get('ready', ('',))[0] != '1' or ws.get('data', ('',))[0] != '$0':
         ctx.report(R, f, f['body'], 'DataChannel::Send writes', 'Send must set ready = true and data = value and nothing else: %s' % {k: v[0] for k, v in ws.items()})
@@ -32,6 +42,8 @@ def h1_channel(ctx, CG):
         if (DC, 'mutex') not in [l[0] for l in locks]:
             ctx.report(R, f, f['body'], 'DataChannel::Send lock ' + k, 'write of %s is not under the channel mutex' % k)
     for p, n, how in direct_writes(f['body']):
+        if p[1] in INERT:
+            continue
         pc = boolform.path_condition(f['body'], n, FM)
         if boolform.equivalent(pc, boolform.T) is not True:
             ctx.report(R, f, n, 'DataChannel::Send unconditional ' + p[1],
